@@ -68,7 +68,10 @@ PrepOf(v) == {m \in msgs : IsPrep(m) /\ m.view = v}
 CommitsOf(v) == {m \in msgs : m.type = "Commit" /\ m.view = v}
 PReqAt(v) == \E p \in msgs: p.type = "PrepareRequest" /\ p.view = v
 
-IndInv ==
+\* IndInv == IndInv1 /\ IndInv2; the two halves are separate operators only so that the step
+\* obligation of the most expensive actions can be checked by two Apalache jobs in parallel
+\* (IndInit /\ StepX => IndInv1' and IndInit /\ StepX => IndInv2', both from the full IndInit).
+IndInv1 ==
   \* T1..T3: bounded TypeOK with message shapes
   /\ rmState \in [RM -> [type: StateTypes, view: 0..VB]]
   /\ msgs \in SUBSET MsgSpace
@@ -88,6 +91,9 @@ IndInv ==
   \* K1..K3: the node state is backed by the node's own messages / the proposal of its view
   /\ \A r \in RM: rmState[r].type = "cv1" =>
         \E m \in msgs: m.type = "ChangeView1" /\ m.rm = r /\ m.view = rmState[r].view
+
+IndInv2 ==
+  \* K2, K3 (see K1 above)
   /\ \A r \in RM: rmState[r].type = "cv2" =>
         \E m \in msgs: m.type = "ChangeView2" /\ m.rm = r /\ m.view = rmState[r].view
   /\ \A r \in RM: rmState[r].type \in {"prepareSent", "commitSent"} => PReqAt(rmState[r].view)
@@ -115,6 +121,8 @@ IndInv ==
         /\ rmState[r].view <= MaxView
         /\ Cardinality(CommitsOf(rmState[r].view)) >= M
         /\ \E p \in msgs: p.type = "PrepareRequest" /\ p.view = rmState[r].view /\ p.sourceView = blockAccepted[r]
+
+IndInv == IndInv1 /\ IndInv2
 
 IndInit == IndInv /\ MaxViewConstraint
 Target == TypeOK /\ InvTwoBlocksAcceptedAdvanced /\ InvFaultNodesCount
